@@ -155,7 +155,20 @@ def build(ep, cls, rng, verbose=False):
     if ep in ("qgmres_solve", "qgmres_solve_left_lu"):
         b = q_from_float(rng.standard_normal((m + 1 if mis else m, 1, 4)))
         prec = "left_lu" if ep.endswith("left_lu") else None
-        return (lambda: sv.QGMRESSolver(tol=1e-8, preconditioner=prec, **vb).solve(A, b)), [A, b]
+        how = int(rng.integers(0, 3))
+        if how == 0:
+            return (lambda: sv.QGMRESSolver(tol=1e-8, preconditioner=prec, **vb).solve(A, b)), [A, b]
+
+        def retuned():
+            # the documented options are public attributes: a caller builds ONE solver and sets / toggles them between solves
+            sol = sv.QGMRESSolver(tol=1e-2, preconditioner=("left_lu" if prec is None else None) if how == 2 else None, **vb)
+            if how == 2:                        # a first, in-domain solve under the other configuration
+                k0 = min(A.shape[0], 3)
+                sol.solve(q_from_float(np.eye(k0)[:, :, None] * [2.0, 0, 0, 0]), q_from_float(np.ones((k0, 1, 1)) * [1.0, 0, 0, 0]))
+            sol.preconditioner = prec or "none"
+            sol.tol = 1e-8
+            return sol.solve(A, b)
+        return retuned, [A, b]
     if ep == "deeplinear_compute":
         lay = [n + 1 if mis else n, m]
         return (lambda: sv.DeepLinearNewtonSchulz(max_iter=1).compute(A, lay)), [A]
